@@ -1,5 +1,5 @@
 """C07 - hits above MSA + buffer never influence the result; those at or below are kept intact."""
-from sa.rules import cropping, flag, indexing
+from sa.rules import cropping, flag, indexing, params, screening
 
 LEVEL = 'other'
 
@@ -10,5 +10,9 @@ def check(ctx):
     cropping.no_escape(ctx, 'C07-R4')
     indexing.data_index_state(ctx, 'C07-R5')
     indexing.positions_are_not_labels(ctx, 'C07-R5')
+    # R6: 'with no MSA nothing is cropped': the MSA asked for per call (None included) is the one used (= C12-R2)
+    params.merge_routine(ctx, 'C07-R6')
+    # R7: the heights compared with the limit are the heights given (= C15-R2: the screening casts and drops columns only)
+    screening.normalisation(ctx, 'C07-R7', 'C07-R7')
     ctx.undecided += ['equality of the tables of two related runs (follows from determinism, C09, and from the above: '
                       'nothing above the limit survives into the chunk, everything else is untouched)']
